@@ -246,6 +246,8 @@ type FNode struct {
 	FP   *Inner
 	A    *FNode
 	B    *FNode
+	MLs  map[string][]*FNode // slices met inside a container before the plain slice field below
+	LLs  [][]*FNode
 	Ls   []*FNode
 	Mp   map[string]*FNode
 	PLs  *[]*FNode
